@@ -244,3 +244,46 @@ func VerifH_c14_multi_select() {
 		vAssert("after-exec-own-database-missing", vIsNil(g))
 	}
 }
+
+// VerifH_c14_flush_blocked: a connection blocked in a blocking pop while its
+// database is flushed (by FLUSHDB from a connection in the same database or
+// FLUSHALL from another one) is still served by the next push into the key it
+// waits on: the flush empties the data, not the set of waiting clients.
+func VerifH_c14_flush_blocked() {
+	VerifSetup()
+	disp := vNewServer()
+	a := vNewClientOn(disp)
+	b := vNewClientOn(disp)
+	vCmd(a, "SELECT", "1")
+	vCmd(a, "SET", "other", "1")
+	flushAll := vBool("flushall")
+	if !flushAll {
+		vCmd(b, "SELECT", "1")
+	}
+	stage := 0
+	vSetEnv(func(point string) bool {
+		if point != "select" || stage > 0 {
+			return false
+		}
+		stage = 1
+		if flushAll {
+			vAssert("flushall-ok", vIsOK(vCmd(b, "FLUSHALL")))
+			vCmd(b, "SELECT", "1")
+		} else {
+			vAssert("flushdb-ok", vIsOK(vCmd(b, "FLUSHDB")))
+		}
+		vAssert("flushed-database-is-empty", vIsInt(vCmd(b, "DBSIZE"), 0))
+		vCmd(b, "RPUSH", "q", "v")
+		return true
+	})
+	var r respValue
+	parked := vRunBlockingOn(a, func() { r = vCmd(a, "BLPOP", "q", "0") })
+	vAssert("blocked-client-served-after-the-flush", !parked)
+	if parked {
+		vReleaseWaiter(a)
+		return
+	}
+	arr, ok := vArrayOf(r)
+	vAssert("blocked-client-reply", ok && len(arr) == 2 && vIsBulk(arr[1], "v"))
+	vAssert("element-consumed", vIsInt(vCmd(b, "LLEN", "q"), 0))
+}
